@@ -54,7 +54,7 @@ def compose(ctx):
             ref = num.zero
             try:
                 for n in range(max(bound, 0) + 1):
-                    for x in itertools.product(sorted(sk.V), repeat=n):
+                    for x in itertools.product(sorted(sk.V, key=repr), repeat=n):
                         gx = O.string_weight(orules, sk.V, sk.S, x, num, piv)
                         if O.is_zero(gx):
                             continue
@@ -66,11 +66,11 @@ def compose(ctx):
             piv2 = []
             okr, got = ctx.ref(f"oracle on the composed grammar {y}", O.string_weight, crules, set(c.V), c.S, y, num, piv2)
             if okr:
-                ctx.eq_terms(f"({order})({y}) = sum_x G(x) T(x,y)", got, ref, hyps=[ctx.gt0(p) for p in piv + piv2], sig=f"{order}:{P['shape']}:{P['fst']}:{''.join(y)}")
+                ctx.eq_terms(f"({order})({y}) = sum_x G(x) T(x,y)", got, ref, hyps=[ctx.gt0(p) for p in piv + piv2], sig=f"{order}:{P['shape']}:{P['fst']}:{''.join(map(str, y))}")
             if P.get("call") and len(y) <= 1:
                 okc, v = ctx.call(f"({order})({y}) real call", c, y, sig=f"{order}:call:exception")
                 if okc:
-                    ctx.eq(f"({order})({y}) real call", v, ref, pivots=piv, sig=f"{order}:call:{P['shape']}:{P['fst']}:{''.join(y)}")
+                    ctx.eq(f"({order})({y}) real call", v, ref, pivots=piv, sig=f"{order}:call:{P['shape']}:{P['fst']}:{''.join(map(str, y))}")
 
 
 @case("C09", "pointwise", domain="SW")
@@ -91,7 +91,7 @@ def pointwise(ctx):
             g = make_cfg(ctx, sk, ws)
             okc, v = ctx.call(f"(cfg @ {x}).treesum()", lambda: (g @ x).treesum(), sig="cfg@string:exception")
             if okc:
-                ctx.eq(f"(cfg @ {x}).treesum() = cfg({x})", v, ref, pivots=piv, sig=f"cfg@string:{P['shape']}:{''.join(x)}")
+                ctx.eq(f"(cfg @ {x}).treesum() = cfg({x})", v, ref, pivots=piv, sig=f"cfg@string:{P['shape']}:{''.join(map(str, x))}")
         for n in P.get("truncate", []):
             g = make_cfg(ctx, sk, ws)
             okc, t = ctx.call(f"truncate_length({n})", g.truncate_length, n, sig="truncate_length:exception")
@@ -123,13 +123,13 @@ def pointwise(ctx):
                     okr2, got = ctx.ref("oracle composed", O.string_weight, crules, set(c.V), c.S, x, num, piv3)
                     if okr and okr2:
                         ctx.eq_terms(f"(cfg @ A)({x}) = cfg({x}) A({x})", got, num.mul(gx, ax), hyps=[ctx.gt0(p) for p in piv + piv2 + piv3],
-                                     sig=f"cfg@acceptor:{P['shape']}:{P['acceptor']}:{''.join(x)}")
+                                     sig=f"cfg@acceptor:{P['shape']}:{P['acceptor']}:{''.join(map(str, x))}")
 
 
 def jobs(tier, seed):
     out = []
     quick = tier == "quick"
-    combos = [("G-FIN", "T-F1", ["cfg@fst"]), ("G-FIN", "T-F2", ["cfg@fst"]), ("G-S1", "T-F3", ["cfg@fst"]), ("G-NU", "T-F1", ["cfg@fst"])]
+    combos = [("G-FIN", "T-F1", ["cfg@fst"]), ("G-FIN", "T-F2", ["cfg@fst"]), ("G-S1", "T-F3", ["cfg@fst"]), ("G-NU", "T-F1", ["cfg@fst"]), ("G-DUP2", "T-F1", ["cfg@fst"]), ("G-FIN", "T-F5", ["cfg@fst"]), ("G-S1", "T-F5", ["cfg@fst"])]
     if not quick:
         combos += [("G-PAL", "T-F4", ["cfg@fst"]), ("G-LIN", "T-F1", ["cfg@fst"]), ("G-FIN", "T-F3", ["cfg@fst"])]
     for sh, fn, orders in combos:
@@ -147,7 +147,7 @@ def jobs(tier, seed):
         xs = [list(s) for s in all_strings(ins, 2)]
         af = list(range(len(F.arcs), F.K))
         out += split_job(dict(case="compose", params=dict(shape=sh, fst=fn, strings=xs, always_f=af, order="fst@cfg")), [0, 1])
-    for sh in (["G-NU", "G-FIN"] if quick else ["G-NU", "G-FIN", "G-PAL", "G-UC", "G-NULL3", "G-CAT"]):
+    for sh in (["G-NU", "G-FIN", "G-DUP2"] if quick else ["G-NU", "G-FIN", "G-DUP2", "G-DUP", "G-PAL", "G-UC", "G-NULL3", "G-CAT", "G-INT"]):
         sk = grammar(sh)
         strings = [list(s) for s in all_strings(sk.V, 3)]
         out += split_job(dict(case="pointwise", params=dict(shape=sh, strings=strings, truncate=[0, 2], acceptor="A-S2", always_a=[3, 4, 5])), [0, 1])
